@@ -91,6 +91,8 @@ pub enum SinkStep {
 	Zero,
 	/// hard error
 	Error,
+	/// hard errors of other kinds (only `Interrupted` may be retried by a writer)
+	ErrorKind(io::ErrorKind),
 }
 
 /// A `Write` whose every call follows `sched` (when exhausted: accept everything).
@@ -143,6 +145,7 @@ impl Write for ScheduledSink {
 			SinkStep::Interrupted => Err(io::Error::new(io::ErrorKind::Interrupted, "injected interruption")),
 			SinkStep::Zero => Ok(0),
 			SinkStep::Error => Err(io::Error::new(io::ErrorKind::Other, "injected write error")),
+			SinkStep::ErrorKind(k) => Err(io::Error::new(k, "injected write error (kind)")),
 		};
 		self.log.push((false, buf.len(), outcome_code(&r)));
 		r
@@ -175,6 +178,7 @@ impl Write for ScheduledSink {
 			SinkStep::Interrupted => Err(io::Error::new(io::ErrorKind::Interrupted, "injected interruption")),
 			SinkStep::Zero => Ok(0),
 			SinkStep::Error => Err(io::Error::new(io::ErrorKind::Other, "injected write error")),
+			SinkStep::ErrorKind(k) => Err(io::Error::new(k, "injected write error (kind)")),
 		};
 		self.log.push((true, total, outcome_code(&r)));
 		r
